@@ -8,10 +8,10 @@ open TantivyModel.WriterSpec
 variable {α : Type} [DecidableEq α]
 
 /-- the pairs of a merged segment are pairs of its (registered) sources, hence of the system -/
-theorem merged_pairs_sub (s : WState α) (m : Merge α) (M : Seg α)
+theorem merged_pairs_sub (s : WState α) (m : Merge α) (M : Seg α) (c : Nat)
     (hperm : List.Perm (segPairs M)
       (((srcsOf m.ids (s.uncommitted ++ s.committed)).flatMap segPairs).filter
-        (fun p => !dead (s.log.take M.cursor) p))) :
+        (fun p => !dead (s.log.take c) p))) :
     ∀ p ∈ segPairs M, p ∈ allPairs s := by
   intro p hp
   have h1 := (hperm.mem_iff.mp hp)
@@ -29,21 +29,20 @@ theorem minv_grow (s : WState α) (P C : List α) (hw : WInv s P C) (h : MInv s)
     have old := h8 m hm
     show MergeGood (s.log ++ batchDels (stampItems s.stamper items)) s.uncommitted s.committed s.metas.opstamp m
     intro hp
-    have old' := old hp
+    obtain ⟨c, hc, hr3, old'⟩ := old hp
+    refine ⟨c, by simp; omega, by rw [List.take_append_of_le_length hc]; exact hr3, ?_⟩
+    rw [List.take_append_of_le_length hc]
     cases hr : m.result with
     | none =>
       simp only [hr] at old' ⊢
-      intro p hpm
-      exact dead_mono _ _ p (old' p hpm)
+      exact old'
     | some M =>
       simp only [hr] at old' ⊢
-      obtain ⟨o1, o2, o3, o4⟩ := old'
-      have hcur : M.cursor ≤ s.log.length := o1.cur
-      rw [List.take_append_of_le_length hcur]
-      refine ⟨?_, o2, o3, o4⟩
+      obtain ⟨o0, o1, o2, o3⟩ := old'
+      refine ⟨o0, ?_, o2, o3⟩
       apply segOK_append _ _ _ o1
       intro del hdel d hd
-      have hpair := merged_pairs_sub s m M o3 _ (mem_segPairs hd)
+      have hpair := merged_pairs_sub s m M c o3 _ (mem_segPairs hd)
       have := hw.pairsLt _ hpair
       have := (batchDels_bounds items s.stamper del hdel).1
       simp at *; omega
@@ -261,5 +260,120 @@ theorem minv_deleteAll (s : WState α) (h : MInv s) : MInv (deleteAllState s) :=
   | cons i is =>
     obtain ⟨x, hx, _⟩ := hp i (by simp [hids])
     simp at hx
+
+theorem advance_id (log : List (DelOp α)) (t : Nat) (sg : Seg α) : (advance log t sg).id = sg.id := rfl
+
+/-- in a register with unique ids a segment is determined by its id -/
+theorem eq_of_id_eq (reg : List (Seg α)) (hn : (segIds reg).Nodup) (a b : Seg α) (ha : a ∈ reg) (hb : b ∈ reg)
+    (h : a.id = b.id) : a = b := by
+  have h1 := lookup_of_mem reg hn a ha
+  have h2 := lookup_of_mem reg hn b hb
+  rw [h] at h1
+  exact Option.some.inj (h1.symm.trans h2)
+
+/-- `commit`: both registers advanced to the commit opstamp and published -/
+theorem minv_commit (s : WState α) (P C : List α) (hw : WInv s P C) (h : MInv s) (hq : quiescent s = true)
+    (p : Option Nat) : MInv (commitState s p) := by
+  obtain ⟨hch, hwk, hin⟩ := quiescent_iff s hq
+  obtain ⟨h1, h2, h3, h4, h5, h6, h7, h8, h9, h10, h11⟩ := h
+  let R := s.uncommitted ++ s.committed
+  let K := (R.map (advance s.log s.stamper)).filter hasAlive
+  have hKc : (commitState s p).committed = K := rfl
+  have hKu : (commitState s p).uncommitted = [] := rfl
+  have hKm : (commitState s p).metas.segs = K := rfl
+  have hRn : (segIds R).Nodup := by
+    have : List.Sublist (segIds R) (allIds s) := by
+      simp only [allIds, regs]; exact List.sublist_append_right _ _
+    exact this.nodup h1
+  have hKsub : List.Sublist (segIds K) (segIds R) := by
+    have e : segIds R = segIds (R.map (advance s.log s.stamper)) := by
+      simp [segIds, List.map_map, Function.comp_def, advance_id]
+    rw [e]
+    exact List.Sublist.map _ (List.filter_sublist)
+  have hwids : (commitState s p).workers.flatMap workerIds = s.workers.flatMap workerIds := by
+    have a : (commitState s p).workers.flatMap workerIds = [] := by
+      apply flatMap_nil_of
+      intro w hw'
+      simp only [commitState, saveMetas, List.mem_map] at hw'
+      obtain ⟨_, _, rfl⟩ := hw'
+      rfl
+    have b : s.workers.flatMap workerIds = [] :=
+      flatMap_nil_of _ _ (fun w hw' => by simp [workerIds, hwk w hw'])
+    rw [a, b]
+  have hpipe : pipeIds (commitState s p) = pipeIds s := by
+    simp only [pipeIds, hwids]; rfl
+  have hallsub : List.Sublist (allIds (commitState s p)) (allIds s) := by
+    simp only [allIds, hpipe, regs, hKu, hKc, List.nil_append]
+    exact List.Sublist.append (List.Sublist.refl _) hKsub
+  have hle : ∀ del ∈ s.log, del.op ≤ s.stamper := fun del hd => Nat.le_of_lt (hw.logLt del hd)
+  have hok : ∀ sg ∈ R, SegOK s.log sg := fun sg hsg => hw.segs sg (by
+    simp only [R, List.mem_append] at hsg ⊢
+    rcases hsg with h' | h' <;> simp [h'])
+  have hKmem : ∀ k ∈ K, ∃ x ∈ R, k = advance s.log s.stamper x := by
+    intro k hk
+    obtain ⟨x, hx, rfl⟩ := List.mem_map.mp (List.mem_filter.mp hk).1
+    exact ⟨x, hx, rfl⟩
+  refine ⟨hallsub.nodup h1, fun i hi => h2 i (hallsub.subset hi), h3, h4, by rw [hpipe]; exact h5,
+    by rw [hKm]; exact hKsub.nodup hRn, ?_, ?_, ?_, ?_, ?_⟩
+  · intro sg hsg
+    rw [hKm] at hsg
+    exact h2 sg.id (hallsub.subset (by
+      simp only [allIds, regs, hKu, hKc, List.nil_append]
+      exact List.mem_append_right _ (mem_segIds hsg)))
+  · -- merges in flight
+    intro m hm
+    show MergeGood s.log [] K s.stamper m
+    intro hp
+    simp only [List.nil_append] at hp ⊢
+    have hpR : present m.ids R := by
+      intro i hi
+      obtain ⟨k, hk, he⟩ := hp i hi
+      obtain ⟨x, hx, rfl⟩ := hKmem k hk
+      exact ⟨x, hx, he⟩
+    -- no source was dropped as empty
+    have hkeep : ∀ x ∈ srcsOf m.ids R, hasAlive (advance s.log s.stamper x) = true := by
+      intro x hx
+      have hx' := List.mem_filter.mp hx
+      have hid : x.id ∈ m.ids := by simpa using hx'.2
+      obtain ⟨k, hk, he⟩ := hp x.id hid
+      obtain ⟨y, hy, rfl⟩ := hKmem k hk
+      have : y = x := eq_of_id_eq R hRn y x hy hx'.1 he
+      rw [← this]
+      exact (List.mem_filter.mp hk).2
+    have hsrc : srcsOf m.ids K = (srcsOf m.ids R).map (advance s.log s.stamper) := by
+      simp only [srcsOf, K, List.filter_filter, List.filter_map, Function.comp_def, advance_id]
+      congr 1
+      apply List.filter_congr
+      intro x hx
+      by_cases hc : m.ids.contains x.id = true
+      · have := hkeep x (List.mem_filter.mpr ⟨hx, hc⟩)
+        simp [hc, this]
+      · have hc' : x.id ∉ m.ids := by simpa using hc
+        simp [hc']
+    have hpairs : (srcsOf m.ids K).flatMap segPairs = (srcsOf m.ids R).flatMap segPairs := by
+      rw [hsrc, List.flatMap_map]
+      simp only [segPairs_advance]
+    obtain ⟨c, hc, _, old⟩ := h8 m hm hpR
+    rw [hpairs]
+    exact ⟨c, hc, fun _ del hdel => hw.logLt del ((List.take_sublist _ _).subset hdel), old⟩
+  · intro k hk
+    rw [hKc] at hk
+    obtain ⟨x, hx, rfl⟩ := hKmem k hk
+    obtain ⟨hcur, _⟩ := advance_full s.log s.stamper x (hok x hx) hle
+    show CommittedAt s.log s.stamper _
+    constructor
+    · rw [hcur, List.take_length]; exact hw.logLt
+    · rw [hcur, List.drop_length]; simp
+  · intro k hk d hd
+    rw [hKc] at hk
+    obtain ⟨x, hx, rfl⟩ := hKmem k hk
+    have hpair : (d.doc, d.op) ∈ segPairs x := by
+      rw [← segPairs_advance s.log s.stamper x]; exact mem_segPairs hd
+    have : (d.doc, d.op) ∈ allPairs s :=
+      regs_pairs_sub s _ (List.mem_flatMap.mpr ⟨x, hx, hpair⟩)
+    exact hw.pairsLt _ this
+  · right
+    show List.Perm (K.flatMap aliveDocs) (K.flatMap aliveDocs)
+    exact List.Perm.refl _
 
 end TantivyModel.Writer
